@@ -1,5 +1,7 @@
 """Sidecar contracts for /repo/src/gbigsmiles.  No code of the repository is copied here."""
 from pyvc import externals  # noqa: F401  assumed contracts of builtins / numpy
 from . import common  # noqa: F401
+from pyvc import externals_chem  # noqa: F401  assumed contracts of deepcopy / RDKit / networkx (needs the ufuncs of common)
 from . import bond  # noqa: F401
 from . import core  # noqa: F401
+from . import mol_gen  # noqa: F401
